@@ -5,6 +5,7 @@ import Driver.AuthDrv
 import Driver.ACDrv
 import Driver.ProtoDrv
 import Driver.FMDrv
+import Driver.CfgDrv
 /-!
 Line-protocol driver over the executable models (DESIGN.md Appendix B).
 One operation per input line, one result line per operation.  Core Lean only, so that it links
@@ -32,6 +33,10 @@ def dispatch (s : DState) (line : String) : DState × String :=
       | none => (s, "bad-op")
     else if t.startsWith "url." || t.startsWith "bs." then
       match protoStep toks with
+      | some out => (s, out)
+      | none => (s, "bad-op")
+    else if t.startsWith "cfg." then
+      match cfgStep toks with
       | some out => (s, out)
       | none => (s, "bad-op")
     else if t.startsWith "fm." then
